@@ -651,6 +651,121 @@ fn vault_lock(a: &[&str]) -> String {
     out
 }
 
+/// intent_tree <max depth> <root kind 0 tx|1 sub> <root hash> <root vok> <n> {<child hash> <yields to it>}*
+///             <n subs> { <hash> <vok> <parent yields> <n> {<child hash> <yields to it>}* }*
+/// Builds an IntentTreeStructure whose intents answer validate_intent with the given yield summaries and runs the REAL
+/// TransactionValidator::validate_intents_and_structure (latest config with the given max_subintent_depth).
+mod intent_tree {
+    use radix_common::prelude::*;
+    use radix_transactions::errors::*;
+    use radix_transactions::model::*;
+    use radix_transactions::validation::*;
+
+    pub struct MockIntent {
+        pub hash: IntentHash,
+        pub sub_hash: SubintentHash,
+        pub vok: bool,
+        pub parent_yields: usize,
+        pub children: Vec<(SubintentHash, usize)>,
+    }
+    impl IntentStructure for MockIntent {
+        fn intent_hash(&self) -> IntentHash {
+            self.hash
+        }
+        fn children(&self) -> impl ExactSizeIterator<Item = SubintentHash> {
+            self.children.iter().map(|c| c.0)
+        }
+        fn validate_intent(
+            &self,
+            _validator: &TransactionValidator,
+            _aggregation: &mut AcrossIntentAggregation,
+        ) -> Result<ManifestYieldSummary, IntentValidationError> {
+            if !self.vok {
+                return Err(IntentValidationError::TooManyReferences { total: 1, limit: 0 });
+            }
+            let mut s = ManifestYieldSummary::new_with_children(self.children.iter().map(|c| c.0));
+            s.parent_yields = self.parent_yields;
+            for (h, y) in self.children.iter() {
+                *s.child_yields.get_mut(h).unwrap() = *y;
+            }
+            Ok(s)
+        }
+    }
+    impl HasSubintentHash for MockIntent {
+        fn subintent_hash(&self) -> SubintentHash {
+            self.sub_hash
+        }
+    }
+    pub struct MockTree {
+        pub root: MockIntent,
+        pub subs: Vec<MockIntent>,
+    }
+    impl IntentTreeStructure for MockTree {
+        type RootIntentStructure = MockIntent;
+        type SubintentStructure = MockIntent;
+        fn root(&self) -> &MockIntent {
+            &self.root
+        }
+        fn non_root_subintents(&self) -> impl ExactSizeIterator<Item = &MockIntent> {
+            self.subs.iter()
+        }
+    }
+    pub fn run(a: &[&str]) -> String {
+        let n = |t: &str| -> usize { t.parse().unwrap() };
+        let h = |k: usize| Hash([k as u8; Hash::LENGTH]);
+        let mut i = 0;
+        let mut next = || {
+            i += 1;
+            n(a[i - 1])
+        };
+        let maxd = next();
+        let (rk, rh, rvok, nrc) = (next(), next(), next(), next());
+        let mut rc = vec![];
+        for _ in 0..nrc {
+            let (c, y) = (next(), next());
+            rc.push((SubintentHash(h(c)), y));
+        }
+        let root = MockIntent {
+            hash: if rk == 0 { IntentHash::Transaction(TransactionIntentHash(h(rh))) } else { IntentHash::Subintent(SubintentHash(h(rh))) },
+            sub_hash: SubintentHash(h(rh)),
+            vok: rvok == 1,
+            parent_yields: 0,
+            children: rc,
+        };
+        let ns = next();
+        let mut subs = vec![];
+        for _ in 0..ns {
+            let (sh, vok, py, nc) = (next(), next(), next(), next());
+            let mut cs = vec![];
+            for _ in 0..nc {
+                let (c, y) = (next(), next());
+                cs.push((SubintentHash(h(c)), y));
+            }
+            subs.push(MockIntent {
+                hash: IntentHash::Subintent(SubintentHash(h(sh))),
+                sub_hash: SubintentHash(h(sh)),
+                vok: vok == 1,
+                parent_yields: py,
+                children: cs,
+            });
+        }
+        let mut config = TransactionValidationConfig::latest();
+        config.max_subintent_depth = maxd;
+        let validator = TransactionValidator::new_with_static_config_network_agnostic(config);
+        match validator.validate_intents_and_structure(&MockTree { root, subs }) {
+            Ok(info) => {
+                let mut out = format!("ok {}", info.intent_relationships.non_root_subintents.len());
+                for (_, d) in info.intent_relationships.non_root_subintents.iter() {
+                    out += &format!(" {}", d.depth);
+                }
+                out
+            }
+            Err(TransactionValidationError::SubintentStructureError(_, e)) => format!("err {:?}", e).split('(').next().unwrap().to_string(),
+            Err(_) => "err other".to_string(),
+        }
+    }
+}
+
 /// authzone_run <kind rule|amount> <rk 0 NF|1 Resource> <rr> <ri> <amount attos> <dcp_some> <dcp> <gck> <gca> <g zone|-1>
 ///              <n zones> { <parent zone|-1> <sim res> <impl res> <impl id> <n proofs> {<res> <amount> <id>}* }*
 /// Zone 0 is the actor's own auth zone. Resources: 0 XRD, 1 ACCOUNT_OWNER_BADGE, 5 PACKAGE_OF_DIRECT_CALLER, 6 GLOBAL_CALLER,
@@ -872,6 +987,7 @@ fn auth_run(a: &[&str]) -> String {
 fn run(a: &[&str]) -> String {
     match a[0] {
         "auth_run" => auth_run(&a[1..]),
+        "intent_tree" => intent_tree::run(&a[1..]),
         "authzone_run" => authzone_run(&a[1..]),
         "vault_lock" => vault_lock(&a[1..]),
         "redeem_value" | "stake_roundtrip" => validator_ops(a),
